@@ -100,7 +100,12 @@ func mkPilot(c *ev.Case, variant int) *pilot {
 	}
 	rmAll := step{"remove-all", func(s shimagent.ShimAgent) error { return s.RemoveAll() }}
 	expired := gen.MakeCert(gen.CertSpec{Key: p.keys[1], KeyID: "expired@x", ValidAfter: now - 7200, ValidBefore: now - 3600, Principals: []string{"u"}, Serial: uint64(c.Rand.Int63())})
-	switch variant % 5 {
+	switch variant % 6 {
+	case 5:
+		// a certificate the RA issued for a key that is not on a hardware token sits in the underlying agent (hidden
+		// in the mode without upstream certificates, and noted as such by the listing); it is removed through the shim
+		issued := mk(p.keys[1], gen.YSSHCAKeyID(gen.KeyIDSpec{Touch: 1, TransID: "t3", Prins: []string{"u"}}))
+		p.steps = []step{add("add-key0", p.keys[0], nil), add("add-issued-cert1", p.keys[1], issued), list, signers, rm("remove-issued-cert1", issued), list, add("add-issued-cert1-again", p.keys[1], issued), rm("remove-issued-cert1-unlisted", issued), list}
 	case 4:
 		// an out-of-window certificate reaches the underlying agent; every later listing has to purge it (an extra remove request to fault)
 		p.steps = []step{add("add-key0", p.keys[0], nil), hc("add-hard-cert", p.hard), add("add-expired-cert1", p.keys[1], expired), list, add("add-expired-cert1-again", p.keys[1], expired), signers, add("add-expired-cert1-third", p.keys[1], expired), sign("sign-hard", p.hard), list}
@@ -156,7 +161,7 @@ func faults(r *ev.Run) {
 	if !r.Want("fault") {
 		return
 	}
-	npil := r.Pick(5, 25)
+	npil := r.Pick(6, 25)
 	idx := 0
 	kinds := []int{wire.Failure, wire.Garbage, wire.WrongType, wire.Oversized, wire.Oversized2G, wire.Oversized4G, wire.Truncated, wire.Close}
 	for pi := 0; pi < npil; pi++ {
